@@ -122,6 +122,28 @@ pub fn sweep(_seed: u64) -> usize {
             });
         }
     }
+    // two rules on the same key (every ordered pair of operations): all of them must hold
+    for a in &ops {
+        for b in &ops {
+            singles.push(cfg::OptionFilterAdapter {
+                hostname: None,
+                filter: cfg::FilterAdapter::Meta(cfg::MetaFilter {
+                    rules: vec![cfg::FilterRule { key: s("k"), operation: a.clone() }, cfg::FilterRule { key: s("k"), operation: b.clone() }],
+                }),
+            });
+        }
+    }
+    // three rules, two keys interleaved
+    singles.push(cfg::OptionFilterAdapter {
+        hostname: None,
+        filter: cfg::FilterAdapter::Meta(cfg::MetaFilter {
+            rules: vec![
+                cfg::FilterRule { key: s("players"), operation: cfg::FilterOperation::Exists },
+                cfg::FilterRule { key: s("k"), operation: cfg::FilterOperation::NotEquals(s("c")) },
+                cfg::FilterRule { key: s("players"), operation: cfg::FilterOperation::NotIn(vec![s("3")]) },
+            ],
+        }),
+    });
     let targets = vec![
         target("t0", &[]),
         target("t1", &[("k", "a"), ("players", "3")]),
@@ -141,7 +163,7 @@ pub fn sweep(_seed: u64) -> usize {
     }
     for (i, f) in singles.iter().enumerate() {
         for (j, g) in singles.iter().enumerate() {
-            if (i * 7 + j * 3) % 11 == 0 {
+            if (i * 7 + j * 3) % 23 == 0 {
                 chains.push(vec![f.clone(), g.clone()]);
             }
         }
